@@ -198,7 +198,7 @@ func init() {
 				gen:       GenOpts{Modes: []int{ModePregel}, MaxNodes: 7, Depth: 2, Cycles: true, Streams: true, Yields: 1, State: 0},
 				paradigms: []int{PInvoke, PInvoke, PStream, PCollect, PTransform}})
 		},
-		Rule: "1 in 4 runs draws a chain (1-5 stages: lambda, parallel of 2-3 lambdas with output keys, single/multi/stream branch over 2-3 alternatives, pass-through, nested graph) compared with sequential composition; the others draw a Pregel plan (1-7 nodes, fan-out/fan-in, single and multi-way branches with scripted outcome sequences, back edges, pass-through nodes, nested Pregel graphs to depth 2, step limit 1-12 or default), one call (any paradigm) and one schedule; compared with the reference superstep interpreter (result or error class, multiset of (node path, input) executions, per-node execution count <= limit, nested plan also run alone); non-trivial = >=2 live tasks and >=1 step with >=2 candidates; distinct = distinct (plan hash, schedule signature)",
+		Rule: "1 in 4 runs draws a chain (1-5 stages: lambda, parallel of 2-3 lambdas with output keys, single/multi/stream branch over 2-3 alternatives, pass-through, nested graph) compared with sequential composition; the others draw a Pregel plan (1-7 nodes, fan-out/fan-in, single and multi-way branches with scripted outcome sequences, back edges, pass-through nodes, nested Pregel graphs to depth 2, step limit 1-12 or default), one call (any paradigm) and one schedule; compared with the reference superstep interpreter (result or error class, multiset of (node path, input) executions, per-node execution count <= limit, nested plan also run alone); non-trivial = >=2 live tasks and >=1 step with >=2 candidates; distinct = distinct (plan hash, schedule signature); 1 chain in 8 keeps an adjacency the library must refuse at build time (refused, or else sequential composition); a quarter of the plans type some outputs statically as any",
 		Real: graphReal, Stub: graphStub,
 		Faults: []string{"node completion order", "map-order perturbation", "step limit hit"},
 	})
@@ -220,10 +220,10 @@ func init() {
 				return runAfterAbort(t, o) // a run started while nodes of an earlier, failed run still finish
 			}
 			return runBasic(t, o, basicCfg{prefix: "C03",
-				gen:       GenOpts{Modes: []int{ModePregel, ModeDAG, ModeWorkflow, ModeWorkflow}, MaxNodes: 7, Depth: 1, Cycles: true, Streams: false, Yields: 3, State: 0, Parallelism: true},
+				gen:       GenOpts{Modes: []int{ModePregel, ModeDAG, ModeWorkflow, ModeWorkflow}, MaxNodes: 7, Depth: 1, Cycles: true, Streams: false, Yields: 3, State: 30, Handlers: true, SeeState: true, Parallelism: true},
 				paradigms: []int{PInvoke, PInvoke, PStream}})
 		},
-		Rule: "plans with >=3 parallel START successors in all three modes (batch and eager execution), node bodies that yield 0-3 times, every interleaving point of executor goroutines and run loop (tm.exec.enter, tm.push.pre, tm.wait.pre, tm.wait.post); oracle: result and execution multiset equal the model on every schedule, push/hand-off/collect conservation per run loop, deadlock detector, no return before executions finished",
+		Rule: "plans with >=3 parallel START successors in all three modes (batch and eager execution), node bodies that yield 0-3 times, every interleaving point of executor goroutines and run loop (tm.exec.enter, tm.push.pre, tm.wait.pre, tm.wait.post); oracle: result and execution multiset equal the model on every schedule, push/hand-off/collect conservation per run loop, deadlock detector, no return before executions finished; 30% of the plans have state with handlers, and in Pregel plans the pre-handlers copy into the node input how many body/post-handler updates the state has seen (fixed at the start of a superstep)",
 		Real: graphReal, Stub: graphStub,
 		Faults: []string{"node completion order", "stalled node (starve policy)", "map-order perturbation"},
 	})
